@@ -25,9 +25,10 @@ var timeoutText = fmt.Sprintf("Task timed out after %d.00 seconds", T)
 
 type scen struct {
 	faults.Scen
-	bound int
-	race  string // "" | "tie" | "early"
-	delay int    // race: the runtime answers after this many ms
+	bound  int
+	race   string // "" | "tie" | "early"
+	delay  int    // race: the runtime answers after this many ms
+	second int    // history scenarios: 1-based index of a second invocation that must time out as well (0: none)
 }
 
 func (s scen) name() string {
@@ -105,7 +106,7 @@ func (s scen) judge(e *sched.Exec) (string, string, *sched.Failure) {
 		isTimeout := inv.Status == 200 && string(inv.Body) == timeoutText
 		isEcho := inv.Status == 200 && string(inv.Body) == echo
 		switch {
-		case i+1 == fi && s.race == "":
+		case (i+1 == fi || i+1 == s.second) && s.race == "":
 			// (2) the timeout outcome
 			if !isTimeout {
 				failf("2", "not-timeout-outcome", "invocation %d (a party stalls): status %d body %q instead of the timeout outcome", i+1, inv.Status, trunc(inv.Body))
@@ -117,6 +118,11 @@ func (s scen) judge(e *sched.Exec) (string, string, *sched.Failure) {
 				failf("3", "race-outcome", "invocation %d (response around expiry): status %d body %q is neither the response nor the timeout outcome", i+1, inv.Status, trunc(inv.Body))
 			}
 			timedOut = isTimeout
+		case s.second == -1 && i == 0:
+			// first invocation of an exit-then-stall history: it fails by the exit (C06 judges how)
+			if inv.Status != 502 {
+				failf("5", "history-first-fault-outcome", "invocation 1 (runtime exits) ended with status %d", inv.Status)
+			}
 		default:
 			if !isEcho {
 				failf("5", fmt.Sprintf("other-invocation-%s:status=%d:%s", rel(i+1, fi), inv.Status, bodyClass(inv.Body, echo)), "invocation %d (%s the timed-out one) ended with status %d body %q", i+1, rel(i+1, fi), inv.Status, trunc(inv.Body))
@@ -129,7 +135,7 @@ func (s scen) judge(e *sched.Exec) (string, string, *sched.Failure) {
 		} else {
 			outs = append(outs, fmt.Sprintf("other:%d", inv.Status))
 		}
-		if i+1 == fi && isTimeout {
+		if (i+1 == fi || i+1 == s.second) && isTimeout {
 			el := inv.AnsNs - inv.IssuedNs
 			// (1) bounded answer; judged in virtual time, meaningful when no timer overtook a runnable thread
 			if e.EarlyClock == 0 {
@@ -243,6 +249,30 @@ func init() {
 					for _, p := range epts {
 						add(next, faults.Fault{Who: who, Point: p, Action: "stall", At: at}, "", "", b0)
 						add(next, faults.Fault{Who: who, Point: p, Action: "stall", At: at}, "", "ignore", b0)
+					}
+				}
+			}
+		}
+		// histories: the stall strikes again in the environment started after the first fault (a mechanism that
+		// works once per emulator life would pass every single-fault scenario)
+		for next := 0; next <= 1; next++ {
+			for _, firstAct := range []string{"stall", "exit1"} {
+				for _, pt := range []string{"after-next", "before-next"} {
+					f1 := faults.Fault{Who: "runtime", Point: pt, Action: firstAct, At: 1, Phase: "p1"}
+					f2 := faults.Fault{Who: "runtime", Point: "after-next", Action: "stall", At: 1, Phase: "p2"}
+					sc := faults.Scen{NExt: next, F: &f1, More: []*faults.Fault{&f2}, Timeout: T, NInv: 4, PhaseOf: func(i int) string {
+						if i == 1 {
+							return "p1"
+						}
+						return "p2"
+					}}
+					if firstAct == "stall" {
+						ss = append(ss, scen{Scen: sc, bound: b0, second: 2})
+					} else {
+						// the first invocation fails (exit), the second one must time out cleanly
+						g := f2
+						sc2 := faults.Scen{NExt: next, F: &g, More: []*faults.Fault{&f1}, Timeout: T, NInv: 4, PhaseOf: sc.PhaseOf, FailAt: 2}
+						ss = append(ss, scen{Scen: sc2, bound: b0, second: -1})
 					}
 				}
 			}
